@@ -23,7 +23,11 @@ RULE = ("random plasmas of 1-6 species (neutrals, bare nuclei, isotopes, element
         "six line-shape classes, continuum windows are arbitrary; 13 % of the cases are sequences: one plasma + one model instance "
         "(direct or attached) lives through 3-8 legal changes (evaluation point on sign-changing profiles, provider via "
         "plasma.atomic_data / model.atomic_data, electron distribution, species replaced / added / removed, Bremsstrahlung "
-        "gaunt_factor) and is re-judged against the current state after every change; 7 % are several-models cases: 2-3 models of one type "
+        "gaunt_factor) and is re-judged against the current state after every change; windows of other width / bin count / position, incl. back to the first, are among the changes (RadiationFunction: the "
+        "same material traced through up to 5 windows); 3 % drive the default tabulated free-free Gaunt factor (and synthetic "
+        "log-linear tables) point-wise over (u, gamma^2, Z) far beyond the table on every side, at knots, at both sides of every "
+        "branch switch and over T_e 0.1 eV..100 keV x 10 nm..10 um; Bremsstrahlung with the default Gaunt factor is driven in the "
+        "tabulated and in the Born branch; 7 % are several-models cases: 2-3 models of one type "
         "(all five plasma models and RadiationFunction) on different plasmas / providers / parameters, built with their default "
         "helper objects, all constructed first and then evaluated interleaved (older after newer and vice versa), each judged "
         "against its own reference; a case is non-trivial when a deciding "
@@ -48,12 +52,16 @@ ASSUMPTIONS = ["for thermal CX with several donors, a donor with non-positive de
                "(width-less line); not judged for StarkBroadenedLine",
                "hydrogen-isotope neutral densities of mixed sign are not generated for TotalRadiatedPower (statement silent)",
                "bremsstrahlung bins are chosen so that the integrand varies by at most ~e^8 over a bin",
-               "coefficients are non-negative (mock provider); negative coefficients are outside the statement"]
+               "coefficients are non-negative (mock provider); negative coefficients are outside the statement",
+               "default Gaunt factor: below the tabulated range the documented Born approximation, above it (u >= u_max or "
+               "gamma^2 >= gamma^2_max) the classical limit 1 stated in the source; between knots only the envelope of the "
+               "neighbouring tabulated values is demanded; the table file itself is trusted data"]
 ASAN_MODULES = ['cherab.core.model.plasma.impact_excitation', 'cherab.core.model.plasma.recombination', 'cherab.core.model.plasma.thermal_cx', 'cherab.core.model.plasma.total_radiated_power', 'cherab.core.model.plasma.bremsstrahlung', 'cherab.core.model.lineshape.gaussian', 'cherab.core.model.lineshape.stark', 'cherab.core.model.lineshape.zeeman', 'cherab.core.model.lineshape.multiplet', 'cherab.tools.emitters.radiation_function']
 ASAN = dict(cases=1500, workers=8, timecap=240)
 QUICK = dict(cases=2000, workers=2, timecap=35)
 THOROUGH = dict(cases=200000, workers=16, timecap=600)
-REQUIRED = {"seq_evals": 400, "seq_nonzero_after_change": 150, "multi_evals": 200, "multi_nonzero": 120, "total": 200, "rate_args": 200, "guard": 80, "nonneg": 200, "linearity": 100, "additivity": 30,
+REQUIRED = {"seq_evals": 400, "seq_nonzero_after_change": 150, "multi_evals": 200, "multi_nonzero": 120,
+            "window_evals": 100, "gaunt_points": 700, "gaunt_envelope": 60, "total": 200, "rate_args": 200, "guard": 80, "nonneg": 200, "linearity": 100, "additivity": 30,
             "brems_bins": 100, "trp_bins": 50, "radfn_bins": 5}
 
 # own CODATA-2018 constants (REFMATH)
@@ -125,6 +133,8 @@ def gen_case(rng, tier):
         return _gen_seq(rng)
     if r < 0.2:
         return _gen_multi(rng)
+    if r < 0.23:
+        return _gen_gaunt(rng)
     r = rng.random()
     kind = ("exc" if r < 0.17 else "rec" if r < 0.34 else "tcx" if r < 0.56 else "trp" if r < 0.74 else
             "brems" if r < 0.97 else "radfn")
@@ -171,6 +181,12 @@ def _gen_line(rng, case, uniform):
     have = {(el, tq)}
     target = _species(rng, el, tq, uniform)
     target["role"] = "target"
+    fast_cold = bool(rng.random() < 0.2)
+    if fast_cold:
+        # fast, cold emitter: Doppler shift of many line widths (the line is far from its rest wavelength)
+        d = rng.normal(size=3)
+        target["t"] = _logu(rng, -1, 0.3)
+        target["v"] = [float(x) for x in d / np.linalg.norm(d) * _logu(rng, 5.3, 6)]
     species = [target]
     if rng.random() < 0.6 and kind != "exc":   # the ion that actually emits: present but not the density to use
         have.add((el, q))
@@ -199,6 +215,9 @@ def _gen_line(rng, case, uniform):
     # line shape
     shape = SHAPES[int(rng.integers(len(SHAPES)))]
     ls = dict(name=shape, margin=float(rng.uniform(12, 40)), bins=int(rng.integers(1, 400)))
+    if fast_cold and rng.random() < 0.7:
+        shape = "gaussian"
+        ls = dict(name=shape, margin=float(rng.uniform(12, 16)), bins=ls["bins"])    # high-resolution window on the shifted line
     if shape == "param_zeeman":
         ls["params"] = [_logu(rng, -2.5, -1), float(rng.uniform(0, 1.5)), float(rng.uniform(-0.5, 0.5))]
     if shape == "multiplet":
@@ -337,12 +356,24 @@ def _gen_brems(rng, case, uniform):
     integ = "default" if r < 0.5 else ("tight" if r < 0.75 else "fixed")
     case["gaunt"] = gaunt
     case["integrator"] = integ
+    born = False
+    if gaunt == "real":
+        # default (tabulated) Gaunt factor: wide T_e, and a share of windows in the Born branch u = hc/(T_e lambda) < 1e-4
+        r = rng.random()
+        if r < 0.35:
+            born = True
+            case["te"] = _logu(rng, 3.2, 5)
+        elif r < 0.55:
+            case["te"] = _logu(rng, 4, 5)
     te = case["te"]
     a = HC_EV_NM / te
     lam0 = max(_logu(rng, 1, 3.5), a / 250.0)
     if gaunt == "real":
-        # stay inside the interpolation range of the tabulated Gaunt factor (no regime switch inside a bin)
+        # no regime switch of the Gaunt factor inside the window (the integrand is discontinuous there)
         lam0 = max(lam0, 1.5 * HC_EV_NM / (te * 1e4))
+        if born:
+            lb = 1.05 * a * 1e4
+            lam0 = float(lb * 10 ** rng.uniform(0, max(0.0, math.log10(1e4 / lb))))
     smax = 1.5 if rng.random() < 0.75 else 8.0
     rel = _logu(rng, -3, 0.5)
     bins = int(rng.integers(1, 65))
@@ -352,7 +383,8 @@ def _gen_brems(rng, case, uniform):
         width *= smax / s
     lam1 = lam0 + width
     if gaunt == "real":
-        lam1 = min(lam1, 0.6 * HC_EV_NM / (te * 1e-4))
+        if not born:
+            lam1 = min(lam1, 0.6 * HC_EV_NM / (te * 1e-4))
         bins = min(bins, 12)
         if lam1 <= lam0:
             case["gaunt"] = "provider"
@@ -384,7 +416,13 @@ def _gen_radfn(rng):
     return dict(kind="radfn", route="trace", scenario="positive" if rng.random() < 0.85 else "zero-power",
                 power=_logu(rng, -3, 8), size=[float(x) for x in rng.uniform(0.2, 2.0, size=3)],
                 step=float(rng.uniform(0.02, 0.3)), angle=float(rng.uniform(-0.4, 0.4)) if rng.random() < 0.5 else 0.0,
-                window=dict(min=lam0, max=lam0 * (1 + _logu(rng, -3, 0.7)), bins=int(rng.integers(1, 40))))
+                window=dict(min=lam0, max=lam0 * (1 + _logu(rng, -3, 0.7)), bins=int(rng.integers(1, 40))),
+                windows=[_cont_window(rng) for _ in range(int(rng.integers(0, 4)))])
+
+
+def _cont_window(rng, hi=3.3):
+    lam0 = _logu(rng, 1, hi)
+    return dict(min=lam0, max=lam0 * (1 + _logu(rng, -3, 0.7)), bins=int(rng.integers(1, 65)))
 
 
 def fixed_cases(tier):
@@ -554,6 +592,19 @@ class Scene:
 # line models
 # ------------------------------------------------------------------------------------------------------------------
 
+def _doppler_factors(case, v):
+    """Factors applied to the rest-frame component positions to bound the Doppler-shifted line.  Two thirds of the
+    emission() cases follow the line: the window is centred on the shifted position lambda (1 + v.d/c) for the actual
+    observation direction (for a fast cold emitter the rest wavelength is then many window widths away); the others, and
+    traced rays, allow for |v|/c on either side."""
+    vmag = math.sqrt(sum(x * x for x in v))
+    if case["route"] == "trace" or case["seed"] % 3 == 0:
+        return 1.0 - vmag / C, 1.0 + vmag / C
+    d = case["dir"]
+    f = 1.0 + sum(a * b for a, b in zip(v, d)) / math.sqrt(sum(x * x for x in d)) / C
+    return f, f
+
+
 def _line_setup(case, st, scene):
     """Model constructor arguments and the spectral window that contains every component of the line."""
     from cherab.core import model as cm
@@ -565,7 +616,7 @@ def _line_setup(case, st, scene):
     ts = st["t"][ti]
     aw = _element(ln["el"]).atomic_weight
     bmag = math.sqrt(sum(x * x for x in case["b"]))
-    vmag = math.sqrt(sum(x * x for x in tsp["v"]))
+    flo, fhi = _doppler_factors(case, tsp["v"])
     sigma = math.sqrt(ts * E / (aw * AMU)) * lam0 / C if ts > 0 else 0.0
     centres = [lam0]
     args, kwargs, cls = [], {}, None
@@ -600,8 +651,8 @@ def _line_setup(case, st, scene):
         kwargs = dict(zeeman_structure=ZeemanStructure(comp(ls["pi"]), comp(ls["sp"]), comp(ls["sm"])))
         centres += [lam0 + o for o, _ in ls["pi"] + ls["sp"] + ls["sm"]]
     half = ls["margin"] * sigma + extra + 1e-3
-    lo = min(centres) * (1.0 - vmag / C) - half
-    hi = max(centres) * (1.0 + vmag / C) + half
+    lo = min(centres) * flo - half
+    hi = max(centres) * fhi + half
     window = dict(min=lo, max=hi, bins=ls["bins"])
     if name == "stark":
         # the modified Lorentzian is integrated per bin by GaussianQuadrature(1e-5, max order 50), which is only accurate
@@ -905,6 +956,33 @@ def _run_trp(case, ctx):
 # bremsstrahlung (Hutchinson 5.3.40)
 # ------------------------------------------------------------------------------------------------------------------
 
+RYDBERG_EV = 13.605693122994
+EULER_GAMMA = 0.5772156649015329
+
+
+def _born_gaunt(u):
+    """Born approximation of the temperature-averaged free-free Gaunt factor, sqrt(3)/pi (ln(4/u) - gamma_E)."""
+    return math.sqrt(3.0) / math.pi * (np.log(4.0 / np.asarray(u, dtype=float)) - EULER_GAMMA)
+
+
+def _ref_gaunt_default(g, z, te, x):
+    """Reference for the default (tabulated) Gaunt factor at wavelengths x: own closed forms outside the table (documented:
+    Born approximation below the range; classical limit 1 above it), the interpolated table (verified point-wise by the
+    'gaunt' cases) inside."""
+    (umin, umax), (gmin, gmax) = g.u_range, g.gamma2_range
+    out = np.empty(len(x))
+    g2 = z * z * RYDBERG_EV / te
+    for k, xx in enumerate(x):
+        u = HC_EV_NM / (te * xx)
+        if u >= umax or g2 >= gmax:
+            out[k] = 1.0
+        elif u < umin or g2 < gmin:
+            out[k] = _born_gaunt(u)
+        else:
+            out[k] = g(z, te, float(xx))
+    return out
+
+
 _GLX, _GLW = np.polynomial.legendre.leggauss(40)
 BREMS_K = (E ** 2 / (4 * math.pi * EPS0)) ** 3 * 32 * math.pi ** 2 / (3 * math.sqrt(3) * ME ** 2 * C ** 3) * math.sqrt(2 * ME / (math.pi * E))
 
@@ -967,7 +1045,8 @@ def _run_brems(case, ctx):
     if gk == "real":
         from cherab.core.atomic import MaxwellianFreeFreeGauntFactor
         g = MaxwellianFreeFreeGauntFactor()
-        gaunt = lambda z, t, x: np.array([g(z, t, float(xx)) for xx in x])
+        gaunt = lambda z, t, x: _ref_gaunt_default(g, z, t, x)
+        ctx.cls("brems:real-gaunt:" + ("born" if HC_EV_NM / (te * window["min"]) < 1e-4 else "table"))
     else:
         gaunt = lambda z, t, x: M.gaunt_value(seed, z, t, x)
     want = _brems_bin_average(window, ne, te, ions, gaunt) * path
@@ -1018,17 +1097,27 @@ def _run_radfn(case, ctx):
     a = case["angle"]
     d = (-math.cos(a), math.sin(a), 0.0)
     o = (sx / 2 - 3.0 * d[0], sy / 2 - 3.0 * d[1], sz / 2)
-    w = case["window"]
-    ray = Ray(origin=Point3D(*o), direction=Vector3D(*d), min_wavelength=w["min"], max_wavelength=w["max"], bins=w["bins"])
-    got = np.array(ray.trace(world).samples, dtype=float)
     chord = _clip_box(o, d, (0, 0, 0), (sx, sy, sz))
-    want = power / (4 * math.pi * (w["max"] - w["min"])) * chord
-    ctx.nontrivial(want != 0.0)
-    if want == 0.0:
-        ctx.check(bool(np.all(got == 0.0)), "radfn:total", "RadiationFunction with zero power radiates", monitor="radfn_bins")
-    else:
-        ctx.close(got, np.full(got.size, want), "radfn:total", "RadiationFunction does not radiate power/(4 pi) spread uniformly over the "
-                  "spectral range times the chord length", rtol=TRACE_RTOL, monitor="radfn_bins", chord=chord)
+    # the same material observed through several spectral windows (first one again at the end): power / (4 pi range) each time
+    wins = [case["window"]] + list(case.get("windows", []))
+    if len(wins) > 1:
+        wins.append(case["window"])
+    for k, w in enumerate(wins):
+        ray = Ray(origin=Point3D(*o), direction=Vector3D(*d), min_wavelength=w["min"], max_wavelength=w["max"], bins=w["bins"])
+        got = np.array(ray.trace(world).samples, dtype=float)
+        want = power / (4 * math.pi * (w["max"] - w["min"])) * chord
+        key = "radfn:total" if k == 0 else "radfn:stale-after:window"
+        ctx.nontrivial(want != 0.0)
+        if k:
+            ctx.mon("window_evals")
+        if want == 0.0:
+            ok = ctx.check(bool(np.all(got == 0.0)), key, "RadiationFunction with zero power radiates", monitor="radfn_bins")
+        else:
+            ok = ctx.close(got, np.full(got.size, want), key, "RadiationFunction does not radiate power/(4 pi) spread uniformly over "
+                           "the spectral range of the observing ray times the chord length", rtol=TRACE_RTOL, monitor="radfn_bins",
+                           chord=chord, window_no=k)
+        if not ok:
+            return
 
 
 def run_case(case, ctx):
@@ -1039,6 +1128,9 @@ def run_case(case, ctx):
         return _run_seq(case, ctx)
     if kind == "multi":
         return _run_multi(case, ctx)
+    if kind == "gaunt":
+        ctx.cls("gaunt:" + case["scenario"])
+        return _run_gaunt(case, ctx)
     ctx.cls("%s:%s" % (kind, case["scenario"]))
     if kind in LINE_KINDS:
         _run_line(case, ctx)
@@ -1114,7 +1206,8 @@ def _gen_seq(rng, m=None, multi=False):
         sp["pkt"] = "exp" if rng.random() < 0.8 else "lin"
     keys = [(sp["el"], sp["q"]) for sp in case["species"]]
     roles = [sp.get("role") for sp in case["species"]]
-    ops = ["point"] * 3 + ["provider"] * 3 + ["electrons", "replace", "replace", "add", "remove"] + (["gaunt"] * 2 if m == "brems" else [])
+    ops = ["point"] * 3 + ["provider"] * 3 + ["window"] * 3 + ["electrons", "replace", "replace", "add", "remove"] + \
+        (["gaunt"] * 2 if m == "brems" else [])
     steps = []
     for _ in range(0 if multi else int(rng.integers(3, 9))):
         op = ops[int(rng.integers(len(ops)))]
@@ -1123,6 +1216,15 @@ def _gen_seq(rng, m=None, multi=False):
             op = "point"
         if op == "point":
             steps.append(dict(op="point", pt=[float(x) for x in rng.uniform(-1, 1, size=3)], dir=[float(x) for x in rng.normal(size=3)]))
+        elif op == "window":
+            # another spectral window for the same instance: other width, bin count, position; sometimes back to the first
+            st = dict(op="window", back=bool(rng.random() < 0.3))
+            if m in LINE_KINDS:
+                st.update(margin=float(rng.uniform(12, 40)), bins=int(rng.integers(1, 400)),
+                          pad=[float(rng.uniform(0, 2)) if rng.random() < 0.5 else 0.0 for _ in range(2)])
+            else:
+                st["window"] = _cont_window(rng, 3.3 if m == "trp" else 3.5)
+            steps.append(st)
         elif op == "provider":
             via = "model" if (route == "direct" or rng.random() < 0.3) else "plasma"
             steps.append(dict(op="provider", seed=int(rng.integers(1, 2 ** 31)), via=via))
@@ -1183,7 +1285,7 @@ def _seq_line_window(cur, st):
     ts = st["t"][ti]
     aw = _element(ln["el"]).atomic_weight
     bmag = math.sqrt(sum(x * x for x in cur["b"]))
-    vmag = math.sqrt(sum(x * x for x in cur["species"][ti]["v"]))
+    flo, fhi = _doppler_factors(cur, cur["species"][ti]["v"])
     sigma = math.sqrt(ts * E / (aw * AMU)) * lam0 / C if ts > 0 else 0.0
     centres = [lam0]
     name = ls["name"]
@@ -1206,7 +1308,9 @@ def _seq_line_window(cur, st):
     elif name == "zeeman_multiplet":
         centres += [cur["lam0_build"] + o for o, _ in ls["pi"] + ls["sp"] + ls["sm"]]
     half = ls["margin"] * sigma + extra + 1e-3
-    lo, hi = min(centres) * (1.0 - vmag / C) - half, max(centres) * (1.0 + vmag / C) + half
+    lo, hi = min(centres) * flo - half, max(centres) * fhi + half
+    pad = cur.get("wpad", (0.0, 0.0))          # shifted / asymmetric windows still containing the whole line
+    lo, hi = lo - pad[0] * (hi - lo), hi + pad[1] * (hi - lo)
     bins = ls["bins"]
     if name == "stark" and wmax > 0:
         bins = int(math.ceil((hi - lo) / (ls["resolution"] * wmax)))      # resolved bins, see _line_setup
@@ -1244,9 +1348,12 @@ class Live:
                               zero_keys=[], ne=case["ne"], te=case["te"], gne=case["gne"], gte=case["gte"], pkne=case["pkne"],
                               pkte=case["pkte"], species=[dict(sp) for sp in case["species"]], scenario="sequence",
                               integrator=case.get("integrator"))
-        for k in ("line", "shape", "elem"):
+        for k in ("line", "elem"):
             if k in case:
                 cur[k] = case[k]
+        if "shape" in case:
+            cur["shape"], cur["wpad"] = dict(case["shape"]), [0.0, 0.0]
+        self.window = dict(case["window"]) if "window" in case else None
         self.providers = {}
         self.gaunt_src = None
         plasma = self.plasma = Plasma()
@@ -1323,6 +1430,15 @@ class Live:
         if op == "point":
             cur["pt"], cur["dir"] = list(stp["pt"]), list(stp["dir"])
             return "point"
+        if op == "window":
+            if self.m in LINE_KINDS:
+                if stp["back"]:
+                    cur["shape"], cur["wpad"] = dict(self.case["shape"]), [0.0, 0.0]
+                else:
+                    cur["shape"], cur["wpad"] = dict(cur["shape"], margin=stp["margin"], bins=stp["bins"]), list(stp["pad"])
+            else:
+                self.window = dict(self.case["window"] if stp["back"] else stp["window"])
+            return "window"
         if op == "provider":
             if stp["via"] == "plasma":
                 plasma.atomic_data = self.prov(stp["seed"])
@@ -1377,9 +1493,9 @@ class Live:
                 ctx.skip("StarkBroadenedLine with a non-positive emitter temperature is not judged")
                 return None
         elif m == "trp":
-            window = self.case["window"]
+            window = self.window
         else:
-            window = _seq_brems_window(self.case["window"], st["te"])
+            window = _seq_brems_window(self.window, st["te"])
         out = self.model.emission(Point3D(*cur["pt"]), Vector3D(*cur["dir"]), Spectrum(window["min"], window["max"], window["bins"]))
         return st, window, np.array(out.samples, dtype=float)
 
@@ -1408,6 +1524,8 @@ def _run_seq(case, ctx):
         if changed and nonzero:
             ctx.nontrivial()
             ctx.mon("seq_nonzero_after_change")
+        if what == "window":
+            ctx.mon("window_evals")
         if not ok:
             return
 
@@ -1592,3 +1710,131 @@ def _run_multi(case, ctx):
                              "evaluating one model evaluated a coefficient that belongs to another model instance's provider",
                              monitor="rate_args", family=foreign[0][1] if foreign else None, other=o, **detail):
                 return
+
+
+# ------------------------------------------------------------------------------------------------------------------
+# the default provider's free-free Gaunt factor over its whole domain ("gaunt"): own closed forms outside the table
+# (Born approximation below the tabulated range, classical limit above it), the tabulated values at the knots, the
+# envelope of the neighbouring knots between them; synthetic log-linear tables must be reproduced exactly
+# ------------------------------------------------------------------------------------------------------------------
+
+def _gen_gaunt(rng):
+    table = "default" if rng.random() < 0.6 else "synthetic"
+    case = dict(kind="gaunt", route="direct", scenario=table)
+    if table == "synthetic":
+        case["table"] = dict(lu0=float(rng.uniform(-6, -1)), du=float(rng.uniform(0.3, 1.5)), nu=int(rng.integers(4, 11)),
+                             lg0=float(rng.uniform(-9, 0)), dg=float(rng.uniform(0.2, 1.0)), ng=int(rng.integers(4, 13)),
+                             a=float(rng.uniform(1, 3)), b=float(rng.uniform(-0.15, 0.15)), c=float(rng.uniform(-0.1, 0.1)))
+
+    def z():
+        r = rng.random()
+        return 0.0 if r < 0.05 else (float(rng.integers(1, 75)) if r < 0.7 else _logu(rng, -1, 1.5))
+    pts = []
+    for _ in range(int(rng.integers(40, 81))):
+        r = rng.random()
+        if r < 0.2:
+            pts.append(dict(k="wide", lu=float(rng.uniform(-9, 9)), lg=float(rng.uniform(-13, 15)), z=z()))
+        elif r < 0.4:
+            pts.append(dict(k="physical", te=_logu(rng, -1, 5), lam=_logu(rng, 1, 4), z=float(rng.integers(1, 31))))
+        elif r < 0.55:
+            pts.append(dict(k="knot", fu=float(rng.random()), fg=float(rng.random()), z=z()))
+        elif r < 0.75:
+            pts.append(dict(k="edge", which=("umin", "umax", "gmin", "gmax")[int(rng.integers(4))],
+                            side=1e-6 if rng.random() < 0.5 else -1e-6, f=float(rng.uniform(-0.2, 1.2)), z=z()))
+        elif r < 0.9:
+            pts.append(dict(k="inside", fu=float(rng.random()), fg=float(rng.random()), z=z()))
+        else:
+            pts.append(dict(k="born", lu=float(rng.uniform(-9, -4.01)), fg=float(rng.random()), z=z()))
+    case["points"] = pts
+    return case
+
+
+def _run_gaunt(case, ctx):
+    from cherab.core.atomic import AtomicData, MaxwellianFreeFreeGauntFactor
+    from cherab.core.atomic.gaunt import InterpolatedFreeFreeGauntFactor
+    synthetic = case["scenario"] == "synthetic"
+    if synthetic:
+        t = case["table"]
+        lu = t["lu0"] + t["du"] * np.arange(t["nu"])
+        lg = t["lg0"] + t["dg"] * np.arange(t["ng"])
+        lin = lambda a, b: t["a"] + t["b"] * a + t["c"] * b
+        g = InterpolatedFreeFreeGauntFactor(10.0 ** lu, 10.0 ** lg, lin(lu[:, None], lg[None, :]))
+        umin, umax, gmin, gmax = 10.0 ** lu[0], 10.0 ** lu[-1], 10.0 ** lg[0], 10.0 ** lg[-1]
+        tab = None
+    else:
+        g = AtomicData().free_free_gaunt_factor() if len(case["points"]) % 2 else MaxwellianFreeFreeGauntFactor()
+        raw = g.raw_data
+        lu, lg, tab = np.log10(raw["u"]), np.log10(raw["gamma2"]), np.asarray(raw["gaunt_factor"])
+        (umin, umax), (gmin, gmax) = g.u_range, g.gamma2_range
+    ctx.nontrivial()
+    for p in case["points"]:
+        z = p["z"]
+        k = p["k"]
+        knot = None
+        if k == "physical":
+            te, lam = p["te"], p["lam"]
+        else:
+            if k == "wide":
+                a, b = p["lu"], p["lg"]
+            elif k == "knot":
+                i, j = int(p["fu"] * (len(lu) - 1)), int(p["fg"] * (len(lg) - 1))
+                a, b = lu[i] + 1e-10, lg[j] + 1e-10
+                knot = (i, j)
+            elif k == "inside":
+                a, b = lu[0] + p["fu"] * (lu[-1] - lu[0]), lg[0] + p["fg"] * (lg[-1] - lg[0])
+            elif k == "born":
+                a, b = p["lu"] + (lu[0] + 4.0), lg[0] + p["fg"] * (lg[-1] - lg[0])
+            else:
+                f = p["f"]
+                a, b = lu[0] + f * (lu[-1] - lu[0]), lg[0] + f * (lg[-1] - lg[0])
+                e = math.log10(1.0 + p["side"])
+                if p["which"] == "umin":
+                    a = lu[0] + e
+                elif p["which"] == "umax":
+                    a = lu[-1] + e
+                elif p["which"] == "gmin":
+                    b = lg[0] + e
+                else:
+                    b = lg[-1] + e
+            zz = z if z != 0 else 1.0
+            te = zz * zz * RYDBERG_EV / 10.0 ** b
+            lam = HC_EV_NM / (te * 10.0 ** a)
+        if not (1e-300 < te < 1e300 and 1e-300 < lam < 1e300):
+            ctx.skip("gaunt: arguments out of floating-point range")
+            continue
+        got = g(z, te, lam)
+        ctx.cls("gaunt-point:" + k)
+        detail = dict(z=z, te=te, wavelength=lam, table=case["scenario"])
+        if z == 0:
+            ctx.check(got == 0.0, "gaunt:z=0", "Gaunt factor for Z = 0 is not zero", monitor="gaunt_points", got=got, **detail)
+            continue
+        u = HC_EV_NM / (te * lam)
+        g2 = z * z * RYDBERG_EV / te
+        if min(abs(u / e - 1.0) for e in (umin, umax)) < 1e-9 or min(abs(g2 / e - 1.0) for e in (gmin, gmax)) < 1e-9:
+            ctx.skip("gaunt: within rounding of a branch switch")
+            continue
+        detail.update(u=u, gamma2=g2)
+        if u >= umax or g2 >= gmax:
+            ctx.close(got, 1.0, "gaunt:classical-limit", "Gaunt factor above the tabulated range (u >= u_max or gamma^2 >= gamma^2_max) "
+                      "is not the classical limit 1", rtol=1e-12, monitor="gaunt_points", **detail)
+        elif u < umin or g2 < gmin:
+            ctx.close(got, float(_born_gaunt(u)), "gaunt:born-limit", "Gaunt factor below the tabulated range is not the Born "
+                      "approximation sqrt(3)/pi (ln(4/u) - gamma_E)", atol=1e-9 * (abs(math.log(4.0 / u)) + 1.0), monitor="gaunt_points",
+                      **detail)
+        elif synthetic:
+            ctx.close(got, lin(math.log10(u), math.log10(g2)), "gaunt:synthetic-table", "a table that is linear in (log10 u, log10 gamma^2) "
+                      "is not reproduced by the interpolated Gaunt factor", atol=1e-9, monitor="gaunt_points", **detail)
+        elif knot is not None:
+            ctx.close(got, float(tab[knot]), "gaunt:table-knot", "interpolated Gaunt factor at a knot differs from the tabulated value",
+                      rtol=1e-7, monitor="gaunt_points", knot=list(knot), **detail)
+        else:
+            i = int(min(max(np.searchsorted(lu, math.log10(u), side="right") - 1, 0), len(lu) - 2))
+            j = int(min(max(np.searchsorted(lg, math.log10(g2), side="right") - 1, 0), len(lg) - 2))
+            blk = tab[max(i - 1, 0):i + 3, max(j - 1, 0):j + 3]
+            cell = tab[i:i + 2, j:j + 2]
+            spread = float(blk.max() - blk.min())
+            lo, hi = float(cell.min()), float(cell.max())
+            mid, half = 0.5 * (lo + hi), 0.5 * (hi - lo) + 0.5 * spread + 1e-9
+            ctx.close(got, mid, "gaunt:table-interior", "interpolated Gaunt factor leaves the envelope of the neighbouring tabulated "
+                      "values (cell range widened by half the spread of the surrounding 4x4 knots)", atol=half, monitor="gaunt_envelope",
+                      cell=[i, j], **detail)
